@@ -13,23 +13,17 @@
 //!   * for the stub variant additionally the shape of the params text the generated client put on the wire.
 use vh_apis::generated as apis_generated;
 use crate::common::*;
-use jsonrpsee::PendingSubscriptionSink;
 use jsonrpsee::core::client::{
-	Client, ClientBuilder, ClientT, Error, ReceivedMessage, Subscription, SubscriptionClientT, TransportReceiverT,
+	Client, ClientBuilder, ClientT, Error, ReceivedMessage, SubscriptionClientT, TransportReceiverT,
 	TransportSenderT,
 };
 use jsonrpsee::core::params::{ArrayParams, ObjectParams};
 use jsonrpsee::core::traits::ToRpcParams;
-use jsonrpsee::core::{RpcResult, SubscriptionResult};
-use jsonrpsee::types::ErrorObjectOwned;
 use jsonrpsee_core::server::Methods;
 use rand::Rng;
 use rand::rngs::StdRng;
-use serde::de::DeserializeOwned;
-use serde::{Deserialize, Serialize};
 use serde_json::value::RawValue;
 use serde_json::{Value, json};
-use futures_util::future::BoxFuture;
 use std::future::Future;
 use std::sync::{Arc, Mutex};
 use std::time::Duration;
